@@ -108,11 +108,10 @@ Definition c11_example : bool :=
 Example C11_nonvacuous : c11_example = true.
 Proof. vm_compute. reflexivity. Qed.
 
-(* KNOWN FINDING (reverse_skips_funding), as a refutation on the model: the clause "each position is charged
-   ... whenever its owner trades on it" is false for a reversing OpenPosition.  In the concrete scenario a
-   settlement leaves trader 21 owing 44560; the reversal that follows leaves the trader's wallet and the new
-   position's margin exactly what they are in the run without the settlement: the owed amount is never
-   charged.  The same history on the contracts is the replay of the known finding. *)
+(* FIXED FINDING (reverse_skips_funding, fix b30e5da in /repo): before the fix a reversing OpenPosition never
+   charged the funding its old position owed.  The concrete scenario that was the refutation witness now shows
+   the charge: a settlement leaves trader 21 owing 44560; after the reversal the trader's wallet is exactly
+   44560 lower than in the run without the settlement, the new position's margin is the same. *)
 Definition c11_reversal_outcome (settle : bool) : option (Z * Z * Z) :=
   match scenario with
   | Ok w0 =>
@@ -124,7 +123,7 @@ Definition c11_reversal_outcome (settle : bool) : option (Z * Z * Z) :=
       end
   | Err _ => None
   end.
-Example C11_refuted_reversal_skips_funding :
-  c11_reversal_outcome true = Some (44560, 999993823183, 6058939) /\
+Example C11_reversal_charges_funding_example :
+  c11_reversal_outcome true = Some (44560, 999993823183 - 44560, 6058939) /\
   c11_reversal_outcome false = Some (0, 999993823183, 6058939).
 Proof. split; vm_compute; reflexivity. Qed.
